@@ -28,6 +28,57 @@ type Env struct {
 	wt          func(v Val)
 	localsFirst bool
 	reached     func(name string) (string, bool)
+	// named intermediate values ($name<k>): a boolean atom mentioning one only holds on paths through the
+	// instruction that produced it: the atom is conjoined with that instruction's path condition (guards), and
+	// is false when the instruction has not been encoded yet on this path (namedKnown + unreachedErr).
+	namedKnown func(name string) bool
+	guards     *[]string
+	// visited: membership in the ghost set of keys already produced by the enclosing map-range loop;
+	// curCtr: the allocation counter at the current program point (for allocated())
+	visited func(k Val) string
+	curCtr  string
+}
+
+type unreachedErr struct{ name string }
+
+// elabAtomic elaborates an operand of a logical connective. If it is a boolean atom (not itself a connective)
+// it is guarded by the path conditions of the named values it mentions.
+func (env *Env) elabAtomic(x Expr) (v Val) {
+	switch y := x.(type) {
+	case *EBinary:
+		switch y.Op {
+		case "&&", "||", "==>", "<==>":
+			return env.elab(x)
+		}
+	case *EUnary:
+		if y.Op == "!" {
+			return env.elab(x)
+		}
+	case *EQuant:
+		return env.elab(x)
+	}
+	var mine []string
+	saved := env.guards
+	env.guards = &mine
+	defer func() {
+		env.guards = saved
+		if r := recover(); r != nil {
+			if _, ok := r.(unreachedErr); ok {
+				v = Val{T: types.Typ[types.Bool], S: "false"}
+				return
+			}
+			panic(r)
+		}
+		if len(mine) == 0 {
+			return
+		}
+		if v.T != nil && isBool(v.T) {
+			v.S = and(append(mine, v.S)...)
+		} else if saved != nil {
+			*saved = append(*saved, mine...)
+		}
+	}()
+	return env.elab(x)
 }
 
 type memUse struct {
@@ -58,10 +109,14 @@ func (env *Env) Elab(x Expr) (v Val, err error) {
 				err = ee
 				return
 			}
+			if ue, ok := r.(unreachedErr); ok {
+				err = elabErr{"named value " + ue.name + " used outside a boolean atom before it is produced"}
+				return
+			}
 			panic(r)
 		}
 	}()
-	return env.elab(x), nil
+	return env.elabAtomic(x), nil
 }
 
 func (env *Env) ElabBool(x Expr) (string, error) {
@@ -348,6 +403,19 @@ func (env *Env) elab(x Expr) Val {
 	case *ENil:
 		return Val{T: types.Typ[types.UntypedNil], S: "nil"}
 	case *EIdent:
+		if strings.HasPrefix(x.Name, "$") {
+			if v, ok := env.vars[x.Name]; ok {
+				if env.reached != nil && env.guards != nil {
+					if pc, ok := env.reached(x.Name); ok && pc != "true" {
+						*env.guards = append(*env.guards, pc)
+					}
+				}
+				return v
+			}
+			if env.namedKnown != nil && env.namedKnown(x.Name) {
+				panic(unreachedErr{x.Name})
+			}
+		}
 		if v, ok := env.vars[x.Name]; ok {
 			// in loop invariants and site assertions a plain name denotes the variable's current value
 			// (parameters can be reassigned); old(name) is the entry value. Bound variables win.
@@ -370,13 +438,15 @@ func (env *Env) elab(x Expr) Val {
 		}
 		fail("unknown identifier %s", x.Name)
 	case *EUnary:
-		v := env.elab(x.X)
-		switch x.Op {
-		case "!":
+		if x.Op == "!" {
+			v := env.elabAtomic(x.X)
 			if v.T == nil || !isBool(v.T) {
 				fail("! on non-bool")
 			}
 			return Val{T: v.T, S: not(v.S)}
+		}
+		v := env.elab(x.X)
+		switch x.Op {
 		case "-":
 			if v.T == nil {
 				return Val{C: new(big.Int).Neg(v.C), S: ""}
@@ -503,7 +573,7 @@ func (env *Env) elabQuant(q *EQuant) Val {
 		}
 		inner.old = o
 	}
-	b := inner.elab(q.Body)
+	b := inner.elabAtomic(q.Body)
 	if b.T == nil || !isBool(b.T) {
 		fail("quantifier body not boolean")
 	}
@@ -543,11 +613,11 @@ func (env *Env) elabBinary(x *EBinary) Val {
 	boolT := types.Typ[types.Bool]
 	switch x.Op {
 	case "&&", "||", "==>", "<==>":
-		a := env.elab(x.X)
+		a := env.elabAtomic(x.X)
 		if x.Op == "==>" && a.S == "false" {
 			return Val{T: boolT, S: "true"} // the consequent is not even elaborated
 		}
-		b := env.elab(x.Y)
+		b := env.elabAtomic(x.Y)
 		if a.T == nil || b.T == nil || !isBool(a.T) || !isBool(b.T) {
 			fail("logical operator %s on non-bool in %s", x.Op, exprString(x))
 		}
@@ -776,6 +846,26 @@ func (env *Env) elabCall(x *ECall) Val {
 			return Val{T: types.Typ[types.Bool], S: fmt.Sprintf("(not (= (sbase %s) (sbase %s)))", a.S, b.S)}
 		}
 		return Val{T: types.Typ[types.Bool], S: fmt.Sprintf("(and (= (sbase %s) (sbase %s)) (= (soff %s) (soff %s)))", a.S, b.S, a.S, b.S)}
+	case name == "visited":
+		// visited(k): key k has already been produced by the map range of the loop the invariant belongs to
+		if env.visited == nil {
+			fail("visited() is only available in invariants of a range-over-map loop")
+		}
+		k := env.elab(x.Args[0])
+		return Val{T: types.Typ[types.Bool], S: env.visited(k)}
+	case name == "allocated":
+		// allocated(x): the object x points into exists at the current program point
+		if env.curCtr == "" {
+			fail("allocated() not available here")
+		}
+		a := env.elab(x.Args[0])
+		switch a.T.Underlying().(type) {
+		case *types.Slice:
+			return Val{T: types.Typ[types.Bool], S: fmt.Sprintf("(< (rootof (sbase %s)) %s)", a.S, env.curCtr)}
+		case *types.Pointer:
+			return Val{T: types.Typ[types.Bool], S: fmt.Sprintf("(< (rootof %s) %s)", a.S, env.curCtr)}
+		}
+		fail("allocated() needs a slice or pointer")
 	case name == "fresh":
 		// allocated after the old state (function entry, or the call for a callee's contract)
 		if env.freshBase == "" {
@@ -797,6 +887,9 @@ func (env *Env) elabCall(x *ECall) Val {
 		}
 		pc, ok := env.reached(id.Name)
 		if !ok {
+			if env.namedKnown != nil && env.namedKnown(id.Name) {
+				return Val{T: types.Typ[types.Bool], S: "false"}
+			}
 			fail("unknown identifier %s", id.Name)
 		}
 		return Val{T: types.Typ[types.Bool], S: pc}
